@@ -129,23 +129,35 @@ theorem bamt_noCost (p : Posting) (hc : p.cost = none) :
     | some a => simp only [hc]
   · rfl
 
-theorem balanceOf_eq : ∀ (ps : List Posting) (v : Value), VAB v → noCost ps = true →
-    AutoXact.balanceOf v ps = .ok ((ps.filterMap bamt).foldl vadd v) := by
+theorem toPPost_noCost (env : PrecEnv) (p : Posting) (hc : p.cost = none) :
+    AutoXact.toPPost env p = { src := p, amount := p.amount, cost := none } := by
+  unfold AutoXact.toPPost
+  rw [hc]
+  cases p.amount <;> rfl
+
+theorem unkeep_id (a : Amount) (h : a.keep = false) : ({ a with keep := false } : Amount) = a := by
+  cases a; simp_all
+
+theorem balanceOf_eq (env : PrecEnv) : ∀ (ps : List Posting) (v : Value), VAB v → noCost ps = true →
+    noKeepAmt ps = true →
+    AutoXact.balanceOf v (ps.map (AutoXact.toPPost env)) = .ok ((ps.filterMap bamt).foldl vadd v) := by
   intro ps
   induction ps with
-  | nil => intro v _ _; rfl
+  | nil => intro v _ _ _; rfl
   | cons p ps ih =>
-    intro v hv hc
+    intro v hv hc hk
+    obtain ⟨hkp, hks⟩ := noKeepAmt_cons p ps hk
     unfold noCost at hc
     simp only [List.all_cons, Bool.and_eq_true, Option.isNone_iff_eq_none] at hc
     have hcs : noCost ps = true := by unfold noCost; simpa using hc.2
+    simp only [List.map_cons, toPPost_noCost env p hc.1]
     unfold AutoXact.balanceOf
     have hb := bamt_noCost p hc.1
     cases hm : p.mustBalance with
     | false =>
       rw [hm] at hb
       simp only [List.filterMap_cons, hb]
-      exact ih v hv hcs
+      exact ih v hv hcs hks
     | true =>
       rw [hm] at hb
       simp only [if_true] at hb
@@ -153,12 +165,12 @@ theorem balanceOf_eq : ∀ (ps : List Posting) (v : Value), VAB v → noCost ps 
       | none =>
         rw [ha] at hb
         simp only [List.filterMap_cons, hb]
-        exact ih v hv hcs
+        exact ih v hv hcs hks
       | some a =>
         rw [ha] at hb
         simp only [List.filterMap_cons, hb, List.foldl_cons]
-        rw [add_eq_vadd v a hv]
-        exact ih _ (VAB_vadd v a hv) hcs
+        rw [unkeep_id a (hkp a ha), add_eq_vadd v a hv]
+        exact ih _ (VAB_vadd v a hv) hcs hks
 
 theorem nulls_eq (ps : List Posting) (hvn : noVirtNull ps = true) :
     ps.filter (fun p => p.amount.isNone) = nullPosts ps := by
@@ -170,26 +182,60 @@ theorem nulls_eq (ps : List Posting) (hvn : noVirtNull ps = true) :
   unfold isNullPost
   cases hm : p.mustBalance <;> cases ha : p.amount <;> simp_all
 
-theorem rows_auto_nil : ∀ ps : List Posting,
-    (ps.filterMap (fun p => p.amount.map (fun a => AutoXact.toFPost p a false))).map rowOfAuto
+/-- the elided postings as C16 finds them -/
+theorem nulls_auto (env : PrecEnv) (ps : List Posting) (hvn : noVirtNull ps = true) :
+    (ps.map (AutoXact.toPPost env)).filter (fun p => p.amount.isNone)
+      = (nullPosts ps).map (AutoXact.toPPost env) := by
+  rw [List.filter_map, ← nulls_eq ps hvn]
+  rfl
+
+theorem mapExcept_annotate (env : PrecEnv) (date : Int) : ∀ ps : List Posting, noCost ps = true →
+    AutoXact.mapExcept (AutoXact.annotateCost env date) (ps.map (AutoXact.toPPost env))
+      = .ok (ps.map (AutoXact.toPPost env)) := by
+  intro ps
+  induction ps with
+  | nil => intro _; rfl
+  | cons p ps ih =>
+    intro hc
+    unfold noCost at hc
+    simp only [List.all_cons, Bool.and_eq_true, Option.isNone_iff_eq_none] at hc
+    have hcs : noCost ps = true := by unfold noCost; simpa using hc.2
+    simp only [List.map_cons, toPPost_noCost env p hc.1]
+    unfold AutoXact.mapExcept
+    have : AutoXact.annotateCost env date { src := p, amount := p.amount, cost := none }
+        = .ok { src := p, amount := p.amount, cost := none } := by
+      unfold AutoXact.annotateCost
+      cases p.amount <;> rfl
+    rw [this]
+    simp only
+    rw [ih hcs]
+
+theorem rowOfAuto_mk (xs : ItemState) (p : Posting) (a : Amount) (c : Option Amount) (f g : Bool) :
+    rowOfAuto (AutoXact.mkFPost xs p a c f g) = ⟨p.account, p.kind, a⟩ := rfl
+
+theorem rows_auto_nil (env : PrecEnv) (xs : ItemState) : ∀ ps : List Posting,
+    (((ps.map (AutoXact.toPPost env)).filterMap
+        (fun p => p.amount.map (fun a => AutoXact.mkFPost xs p.src a p.cost false false))).map rowOfAuto)
       = rowsOf [] ps := by
   intro ps
   induction ps with
   | nil => rfl
   | cons p ps ih =>
-    unfold rowsOf
+    have hsrc : (AutoXact.toPPost env p).src = p := rfl
+    have hamt : (AutoXact.toPPost env p).amount = p.amount := rfl
     cases ha : p.amount with
     | none =>
-      simp only [List.filterMap_cons, ha, Option.map_none]
+      simp only [List.map_cons, List.filterMap_cons, hamt, ha, Option.map_none, rowsOf]
       split <;> exact ih
     | some a =>
-      simp only [List.filterMap_cons, ha, Option.map_some, List.map_cons, ih]
-      rfl
+      simp only [List.map_cons, List.filterMap_cons, hamt, ha, Option.map_some, rowsOf, hsrc,
+        rowOfAuto_mk, ih]
 
-theorem rows_auto_fill (a : Amount) (more : List Amount) : ∀ ps : List Posting, noVirtNull ps = true →
-    (ps.map (fun p => match p.amount with
-                      | some b => AutoXact.toFPost p b false
-                      | none => AutoXact.toFPost p a true)).map rowOfAuto
+theorem rows_auto_fill (env : PrecEnv) (xs : ItemState) (a : Amount) (more : List Amount) :
+    ∀ ps : List Posting, noVirtNull ps = true →
+    ((ps.map (AutoXact.toPPost env)).map (fun p => match p.amount with
+                      | some b => AutoXact.mkFPost xs p.src b p.cost false false
+                      | none => AutoXact.mkFPost xs p.src a none true false)).map rowOfAuto
       = rowsOf (a :: more) ps := by
   intro ps
   induction ps with
@@ -199,19 +245,91 @@ theorem rows_auto_fill (a : Amount) (more : List Amount) : ∀ ps : List Posting
     have hvn' := noVirtNull_tail hvn
     unfold noVirtNull at hvn
     simp only [List.all_cons, Bool.and_eq_true] at hvn
+    have hsrc : (AutoXact.toPPost env p).src = p := rfl
+    have hamt : (AutoXact.toPPost env p).amount = p.amount := rfl
     simp only [List.map_cons]
     rw [ih hvn']
     cases ha : p.amount with
     | none =>
       have hm : p.mustBalance = true := by
         have := hvn.1; rw [ha] at this; simpa using this
-      simp only [rowsOf, ha, hm, if_true]
-      rfl
+      simp only [hamt, ha, rowsOf, hm, if_true, hsrc, rowOfAuto_mk]
     | some b =>
-      simp only [rowsOf, ha]
-      rfl
+      simp only [hamt, ha, rowsOf, hsrc, rowOfAuto_mk]
 
-theorem fillAmounts_auto (v : Value) (hv : VAB v) :
+/-- every entry of the residual fold satisfies a property of the commodity that
+    all folded amounts satisfy -/
+def entriesP (P : Comm → Prop) : Value → Prop
+  | .amt a => P a.comm
+  | .bal b => ∀ x ∈ b, P x.comm
+  | _ => True
+
+theorem entriesP_addGo (P : Comm → Prop) (b : Balance) (a : Amount) (hb : ∀ x ∈ b, P x.comm) (ha : P a.comm) :
+    ∀ x ∈ Balance.addGo b a, P x.comm := by
+  induction b with
+  | nil => intro x hx; simp only [Balance.addGo, List.mem_cons, List.not_mem_nil, or_false] at hx; rw [hx]; exact ha
+  | cons y ys ih =>
+    intro x hx
+    unfold Balance.addGo at hx
+    split at hx
+    · rcases List.mem_cons.1 hx with rfl | hx'
+      · exact hb y List.mem_cons_self
+      · exact hb x (List.mem_cons_of_mem _ hx')
+    · rcases List.mem_cons.1 hx with rfl | hx'
+      · exact hb _ List.mem_cons_self
+      · exact ih (fun z hz => hb z (List.mem_cons_of_mem _ hz)) x hx'
+
+theorem entriesP_addAmt (P : Comm → Prop) (b : Balance) (a : Amount) (hb : ∀ x ∈ b, P x.comm) (ha : P a.comm) :
+    ∀ x ∈ Balance.addAmt b a, P x.comm := by
+  unfold Balance.addAmt
+  split
+  · exact hb
+  · exact entriesP_addGo P b a hb ha
+
+theorem entriesP_vadd (P : Comm → Prop) (v : Value) (a : Amount) (hvab : VAB v) (hv : entriesP P v)
+    (ha : P a.comm) : entriesP P (vadd v a) := by
+  cases v with
+  | void => exact ha
+  | amt x =>
+    simp only [vadd]
+    split
+    · exact hv
+    · apply entriesP_addAmt P _ a _ ha
+      intro y hy
+      unfold Balance.ofAmt at hy
+      split at hy
+      · cases hy
+      · simp only [List.mem_cons, List.not_mem_nil, or_false] at hy; rw [hy]; exact hv
+  | bal b => exact entriesP_addAmt P b a hv ha
+  | int n => cases hvab
+  | bool _ => cases hvab
+
+theorem entriesP_foldl (P : Comm → Prop) (l : List Amount) (hl : ∀ a ∈ l, P a.comm) :
+    ∀ v, VAB v → entriesP P v → entriesP P (l.foldl vadd v) := by
+  induction l with
+  | nil => intro v _ h; exact h
+  | cons a l ih =>
+    intro v hvab hv
+    exact ih (fun x hx => hl x (List.mem_cons_of_mem _ hx)) _ (VAB_vadd v a hvab)
+      (entriesP_vadd P v a hvab hv (hl a List.mem_cons_self))
+
+theorem xbalance_noLot (ps : List Posting) (hc : noCost ps = true) (hl : noLotAmt ps = true) :
+    entriesP (fun c => AutoXact.hasLot c = false) (xbalance ps) := by
+  unfold xbalance
+  refine entriesP_foldl _ _ ?_ .void trivial trivial
+  intro a ha
+  obtain ⟨p, hp, hpa⟩ := List.mem_filterMap.1 ha
+  unfold noCost at hc
+  have hpc := List.all_eq_true.1 hc p hp
+  rw [bamt_noCost p (by simpa using hpc)] at hpa
+  unfold noLotAmt at hl
+  have := List.all_eq_true.1 hl p hp
+  split at hpa
+  · rw [hpa] at this
+    simpa using this
+  · cases hpa
+
+theorem fillAmounts_auto (v : Value) (hv : VAB v) (hl : entriesP (fun c => AutoXact.hasLot c = false) v) :
     (match AutoXact.fillAmounts v with
      | some l => l
      | none => []) = inferred v ∧ (AutoXact.fillAmounts v = none → inferred v = []) := by
@@ -221,7 +339,7 @@ theorem fillAmounts_auto (v : Value) (hv : VAB v) :
   | bal b =>
     refine ⟨?_, fun h => nomatch h⟩
     simp only [AutoXact.fillAmounts, inferred]
-    rw [sortByComm_auto_eq_fin, sortedAmounts_of_eq_fin]
+    rw [sortByComm_auto_eq_fin b hl, sortedAmounts_of_eq_fin]
   | int _ => cases hv
   | bool _ => cases hv
 
@@ -249,31 +367,43 @@ theorem noCost_of (ps : List Posting) (h : noCostAssert ps = true) : noCost ps =
   simp only [Bool.and_eq_true] at this
   exact this.1
 
-/-- `AutoXact.finalize` is the closed form wherever it does not answer `unsupported`. -/
+theorem all_cost_none (env : PrecEnv) (ps : List Posting) (hc : noCost ps = true) :
+    (ps.map (AutoXact.toPPost env)).all (fun p => p.cost.isNone) = true := by
+  rw [List.all_eq_true]
+  intro q hq
+  obtain ⟨p, hp, rfl⟩ := List.mem_map.1 hq
+  unfold noCost at hc
+  have := List.all_eq_true.1 hc p hp
+  rw [toPPost_noCost env p (by simpa using this)]
+  rfl
+
+/-- `AutoXact.finalize` is the closed form wherever it does not answer `unsupported`
+    (no cost, no assertion, no lot annotation, no implied exchange). -/
 theorem auto_eq_ref (env : PrecEnv) (x : Xact) (hca : noCostAssert x.posts = true)
+    (hk : noKeepAmt x.posts = true) (hlot : noLotAmt x.posts = true)
     (hvn : noVirtNull x.posts = true) (hsa : someAmount x.posts = true)
     (himp : impliedCase env x.posts = false) :
     verdictAuto (AutoXact.finalize env x) = ref env x.posts := by
   have hnc := noCost_of x.posts hca
-  have hcoa : AutoXact.hasCostOrAssert x = false := by
-    unfold AutoXact.hasCostOrAssert
+  have hasr : x.posts.any (fun p => p.assert.isSome) = false := by
     rw [List.any_eq_false]
     intro p hp
     unfold noCostAssert at hca
     have := List.all_eq_true.1 hca p hp
-    cases h1 : p.cost <;> cases h2 : p.assert <;> simp_all
-  have hbal : AutoXact.balanceOf .void x.posts = .ok (xbalance x.posts) :=
-    balanceOf_eq x.posts .void trivial hnc
+    cases h2 : p.assert <;> simp_all
+  have hbal : AutoXact.balanceOf .void (x.posts.map (AutoXact.toPPost env)) = .ok (xbalance x.posts) :=
+    balanceOf_eq env x.posts .void trivial hnc hk
+  have hann := mapExcept_annotate env x.date x.posts hnc
   unfold AutoXact.finalize
-  rw [hcoa]
+  rw [hasr]
   simp only [Bool.false_eq_true, if_false]
-  rw [nulls_eq x.posts hvn]
+  rw [nulls_auto env x.posts hvn]
   unfold ref
   match hn : nullPosts x.posts with
   | [] =>
-    simp only [hbal]
+    simp only [List.map_nil, hbal, hann]
     rw [impliedPrice_auto env x.posts hn hnc, himp]
-    simp only [Bool.false_eq_true, if_false]
+    simp only [Bool.false_eq_true, false_and, if_false]
     rw [acceptNoNull_plain env x.posts hn himp, valueIsZero_auto_eq_of]
     cases OF.valueIsZero env (xbalance x.posts) with
     | false => rfl
@@ -287,8 +417,10 @@ theorem auto_eq_ref (env : PrecEnv) (x : Xact) (hca : noCostAssert x.posts = tru
       unfold isNullPost at this
       simp only [Bool.and_eq_true] at this
       exact this.1
-    simp only [hnm, not_true_eq_false, if_false, hbal]
+    have hsrc : (AutoXact.toPPost env n).src = n := rfl
+    simp only [List.map_cons, List.map_nil, hsrc, hnm, not_true_eq_false, if_false, hbal, hann]
     obtain ⟨hfa, hfn⟩ := fillAmounts_auto (xbalance x.posts) (VAB_xbalance x.posts)
+      (xbalance_noLot x.posts hnc hlot)
     have hnotall : x.posts.all (fun p => p.amount.isNone) = false := by
       unfold someAmount at hsa
       have hne : x.posts ≠ [] := by
@@ -321,19 +453,24 @@ theorem auto_eq_ref (env : PrecEnv) (x : Xact) (hca : noCostAssert x.posts = tru
         rw [← hfa]
         refine congrArg Verdict.accepted ?_
         refine congr (congrArg HAppend.hAppend ?_) ?_
-        · exact rows_auto_fill a more x.posts hvn
+        · exact rows_auto_fill env x.state a more x.posts hvn
         · simp only [extraRows, List.drop_one, List.tail_cons, List.map_map]
           rfl
   | a :: b :: r =>
-    simp only
-    have : (a :: b :: r).all Posting.mustBalance = true := by
-      rw [List.all_eq_true]
-      intro p hp
-      have : p ∈ nullPosts x.posts := by rw [hn]; exact hp
-      have := (List.mem_filter.1 this).2
-      unfold isNullPost at this
-      simp only [Bool.and_eq_true] at this
-      exact this.1
+    simp only [List.map_cons]
+    have : ((AutoXact.toPPost env a) :: (AutoXact.toPPost env b) :: r.map (AutoXact.toPPost env)).all
+        (fun p => p.src.mustBalance) = true := by
+      have hall : ∀ p ∈ a :: b :: r, p.mustBalance = true := by
+        intro p hp
+        have : p ∈ nullPosts x.posts := by rw [hn]; exact hp
+        have := (List.mem_filter.1 this).2
+        unfold isNullPost at this
+        simp only [Bool.and_eq_true] at this
+        exact this.1
+      simp only [List.all_cons, Bool.and_eq_true, List.all_eq_true, List.mem_map]
+      refine ⟨hall a (by simp), hall b (by simp), ?_⟩
+      rintro q ⟨p, hp, rfl⟩
+      exact hall p (by simp [hp])
     rw [if_pos this]
     rfl
 
